@@ -391,6 +391,7 @@ func main() {
 			"after a peer FIN the close notification itself is not judged here (C03); every byte sent before the FIN must still be delivered",
 			"spin detection: an execution that exceeds 4000 scheduling steps (legitimate ones stay below 600) is reported as a livelock",
 		},
-		Build: build, QuickBudget: 40 * time.Second, ThoroughBudget: 10 * time.Minute, MinNonTrivial: 100,
+		UsesSimulatedKernel: true,
+		Build:               build, QuickBudget: 40 * time.Second, ThoroughBudget: 10 * time.Minute, MinNonTrivial: 100,
 	})
 }
